@@ -200,3 +200,11 @@ Theorem C13_resubmit_connected_refuted :
   (exists s, rrun ex_bop ex_cont mp0 [SubA Fine 1; SubA Stateful 1] = ROk s /\ In 1 (satvs s) /\ In 1 (fa s)).
 Proof. exact resubmit_example. Qed.
 Print Assumptions C13_resubmit_connected_refuted.
+
+(** ... and it is transient: a VBK block the tree accepts is not in flight after a connect pass (generatePopData,
+    removeAll), whatever else the pass does *)
+Theorem C13_inflight_block_resolved :
+  forall (bop cont : N -> N) c s b,
+    (forall s', vB c s' b = Fine) -> ~ In b (fb (tryConnect bop cont c s)).
+Proof. exact inflight_block_resolved_lemma. Qed.
+Print Assumptions C13_inflight_block_resolved.
